@@ -51,7 +51,8 @@ def runCase (v : Variant) (line : String) : String :=
     | none => "bad-case"
     | some bs =>
       let as4 := asn == "4"
-      match (if stream == "bmpd" then runBmpDumping v as4 bs else run v as4 bs) with
+      match (if stream == "bmpd" then runBmpDumping v as4 bs
+             else if stream == "mrt" then runMrt v as4 bs else run v as4 bs) with
       | none => "err"
       | some es => if stream == "mal" then "ok ## " ++ showEvents es else showEvents es
   | _ => "bad-case"
@@ -63,5 +64,6 @@ partial def loop (v : Variant) (h : IO.FS.Stream) (out : IO.FS.Stream) : IO Unit
   loop v h out
 
 def main (args : List String) : IO Unit := do
-  let v : Variant := ⟨args.contains "padbits=repaired", !args.contains "bmpeor=repaired"⟩
+  let v : Variant := ⟨args.contains "padbits=repaired", !args.contains "bmpeor=repaired",
+    !args.contains "mrtas=repaired"⟩
   loop v (← IO.getStdin) (← IO.getStdout)
